@@ -191,6 +191,30 @@ def nullable_vars(cfg: CFG) -> Set[str]:
     return out
 
 
+class tracking:
+    """`with tracking(cfg, names):` - follow *names* by definition site for the queries inside the block only (the graph is
+    shared between the checks of one process; a verdict must not depend on which check ran before)."""
+
+    def __init__(self, cfg: CFG, names):
+        self.cfg, self.names = cfg, set(names)
+
+    def __enter__(self):
+        cur = self.cfg.__dict__.setdefault('extra_tracked', set())
+        self.added = self.names - cur
+        if self.added:
+            cur |= self.added
+            for k in ('_nullable_vars', '_atom_sites'):
+                self.cfg.__dict__.pop(k, None)
+        return self
+
+    def __exit__(self, *exc):
+        if self.added:
+            self.cfg.__dict__['extra_tracked'] -= self.added
+            for k in ('_nullable_vars', '_atom_sites'):
+                self.cfg.__dict__.pop(k, None)
+        return False
+
+
 def track_names(cfg: CFG, names) -> None:
     """Ask for *names* to be followed along paths by definition site as well (so that `leaves(..., env=)` can tell
     which of several definitions a path went through: `found, value = probe()` ... `if found: return value`)."""
